@@ -160,6 +160,52 @@ def run(ctx):
                       16 if thorough else 8, 120 if thorough else 25)
     ctx.cov["free_running_thread_sessions"] = len(fr)
     traces += fr
+    # sessions that share a group, a role and a password scalar but NOT the parameter set (different M/N/S seeds),
+    # or share everything but the password, or the same password under different roles: sequential and interleaved
+    def family_runs(base_ps, g, alt_ps, tag):
+        out = []
+        pw1, pw2 = (mp.pw_for(g, 1), mp.pw_for(g, 2)) if g in TOY_INT or g in TOY_CURVES else (b"pw-1", b"pw-2")
+        q = uni.group(g).order()
+        combos = [("AB", base_ps, pw1, "AB", alt_ps, pw1), ("SS", base_ps, pw1, "SS", alt_ps, pw1),
+                  ("AB", base_ps, pw1, "AB", base_ps, pw2), ("AB", base_ps, pw1, "SS", base_ps, pw1),
+                  ("AB", alt_ps, pw2, "AB", base_ps, pw2)]
+        for ci, (p1, ps1, w1, p2, ps2, w2) in enumerate(combos):
+            for order in range(4):
+                r = Run("%s/%d/order%d" % (tag, ci, order), uni)
+                c1 = ("A", "B") if p1 == "AB" else ("S", "S")
+                c2 = ("A", "B") if p2 == "AB" else ("S", "S")
+                r.new("a1", c1[0], ps1, w1, b"a", b"b" if p1 == "AB" else b"")
+                r.new("b1", c1[1], ps1, w1, b"a", b"b" if p1 == "AB" else b"")
+                r.new("a2", c2[0], ps2, w2, b"a", b"b" if p2 == "AB" else b"")
+                r.new("b2", c2[1], ps2, w2, b"a", b"b" if p2 == "AB" else b"")
+                xs = {"a1": 2 % q, "b1": 3 % q, "a2": 2 % q, "b2": 4 % q}
+                peer = {"a1": "b1", "b1": "a1", "a2": "b2", "b2": "a2"}
+                starts = [["a1", "b1", "a2", "b2"], ["a2", "b2", "a1", "b1"], ["a1", "a2", "b1", "b2"], ["b2", "a1", "b1", "a2"]][order]
+                fins = [["a1", "b1", "a2", "b2"], ["a1", "b1", "a2", "b2"], ["b2", "b1", "a2", "a1"], ["a2", "a1", "b2", "b1"]][order]
+                if order == 0:          # strictly sequential: exchange 1 completely before exchange 2
+                    seq = [("s", "a1"), ("s", "b1"), ("f", "a1"), ("f", "b1"), ("s", "a2"), ("s", "b2"), ("f", "a2"), ("f", "b2")]
+                else:
+                    seq = [("s", v) for v in starts] + [("f", v) for v in fins]
+                for op, v in seq:
+                    if op == "s":
+                        r.start(v, mp.stream_for(g, xs[v]))
+                    else:
+                        r.finish(v, r.msg[peer[v]])
+                for ps in {ps1, ps2}:
+                    r.t.consts(ps)
+                out.append(r.json())
+        return out
+    uni.paramset("Pi23-alt", grp="i23", M=b"M-alt", N=b"N-alt", S=b"S-alt")
+    uni.paramset("Ped37-alt", grp="ed37", M=b"M-alt", N=b"N-alt", S=b"S-alt")
+    traces += family_runs("Pi23", "i23", "Pi23-alt", "same-group-other-seeds/i23")
+    traces += family_runs("Ped37", "ed37", "Ped37-alt", "same-group-other-seeds/ed37")
+    for ps in ("PEd25519", "P1024"):
+        uni.paramset(ps)
+    uni.paramset("P1024-alt", grp="I1024", M=b"M-alt", N=b"N-alt", S=b"S-alt")
+    uni.paramset("PEd25519-alt", grp="Ed25519", M=b"M-alt", N=b"N-alt", S=b"S-alt")
+    fr2 = family_runs("P1024", "I1024", "P1024-alt", "same-group-other-seeds/I1024")
+    fr3 = family_runs("PEd25519", "Ed25519", "PEd25519-alt", "same-group-other-seeds/Ed25519")
+    traces += (fr2 + fr3) if thorough else fr2[:8:2] + fr3[1:8:3]
     # interleaved sessions on the shipped sets (one thread): two exchanges on different sets, calls alternating
     for ps in ("PEd25519", "P1024", "P2048", "P3072"):
         uni.paramset(ps)
